@@ -594,7 +594,7 @@ Case gen_case(const std::string &profile, uint64_t seed, const GenOpts &go) {
         c.ops.push_back(op);
         return c;
     }
-    if (profile == "sym") {
+    if (profile == "sym" || profile == "symleak") {
         c.prec = go.force_prec >= 0 ? go.force_prec : (int)rc.below(4);
         int n = pick_n(rc, go.tier); if (n < 2) n = (int)rc.range(2, 20);
         static const int fams[] = {F_RANDOM, F_BAND, F_ARROW, F_GRID, F_BLOCKDIAG, F_DENSEROWCOL, F_BLOCKTRI, F_CHAINFOREST, F_DENSE};
@@ -631,6 +631,15 @@ Case gen_case(const std::string &profile, uint64_t seed, const GenOpts &go) {
         op.x.nprocs = rc.chance(0.15) ? 1 : (int)rc.range(2, 8);
         op.x.panel_size = (int)op.ienv[1]; op.x.relax = (int)op.ienv[2];
         gen_sched(rs, op.sched, op.x.nprocs, baseline, profile);
+        if (profile == "symleak") {
+            // C17 in symmetric mode: optional workspace query first, optional reuse / refactorization after, then the destroy call
+            if (rc.chance(0.3)) { OpSpec q = op; q.x.lwork = -1; q.x.fact = 0; q.x.trans = 0; gen_sched(rs, q.sched, q.x.nprocs, baseline, profile); c.ops.push_back(q); }
+            c.ops.push_back(op);
+            if (rc.chance(0.4)) { OpSpec f = op; f.x.fact = 2; f.x.trans = (int)rc.below(3); f.x.nprocs = (int)rc.range(1, 3); gen_sched(rs, f.sched, f.x.nprocs, baseline, profile); c.ops.push_back(f); }
+            if (rc.chance(0.3)) { OpSpec f = op; f.x.refact = 1; gen_sched(rs, f.sched, f.x.nprocs, baseline, profile); c.ops.push_back(f); }
+            OpSpec d = op; d.kind = OP_DESTROY; gen_sched(rs, d.sched, d.x.nprocs, baseline, profile); c.ops.push_back(d);
+            return c;
+        }
         c.ops.push_back(op);
         return c;
     }
